@@ -44,12 +44,14 @@ type Contract struct {
 	// Cases: named sub-cases for known-finding delimitation: ensures labelled
 	Labels map[*Clause]string
 	Lets   map[string]Expr
+	Oracle bool     // executable transcription of the property used for counterexample search; not verified
+	Covers []string // function-key substrings whose failed obligations this oracle can witness
 }
 
 var clauseKeywords = map[string]bool{
 	"func": true, "mode": true, "props": true, "trusted": true, "requires": true, "ensures": true,
 	"assigns": true, "nopanic": true, "pure": true, "loop": true, "invariant": true, "decreases": true,
-	"note": true, "funcfield": true, "iface": true, "global": true, "let": true,
+	"note": true, "funcfield": true, "iface": true, "global": true, "let": true, "oracle": true, "covers": true,
 }
 
 // parseContractFile reads //@ lines. pkgPath is the import path of the
@@ -138,6 +140,10 @@ func parseContractLines(sc *bufio.Scanner, path, pkgPath string) ([]*Contract, e
 			cur.HasAssigns = true
 		case "nopanic":
 			cur.NoPanic = true
+		case "oracle":
+			cur.Oracle = true
+		case "covers":
+			cur.Covers = append(cur.Covers, strings.TrimSpace(rc.text))
 		case "note":
 			cur.Notes = append(cur.Notes, rc.text)
 		case "let":
